@@ -22,6 +22,7 @@ type Mutant struct {
 	Nth      int    // 1-based occurrence to replace when Old occurs several times (0 = must be unique)
 	Expect   string // substring of the obligation key expected to fail
 	Edits    []Edit // further edits (same or other files)
+	Benign   bool   // behaviour-preserving variant: the checks must stay silent
 }
 
 type Edit struct {
@@ -166,9 +167,14 @@ func runMutants(repo, verif, property string) int {
 				}
 			}
 			if res.Status == "" {
-				if killed {
+				switch {
+				case m.Benign && len(res.Reports) == 0:
+					res.Status = "silent-ok"
+				case m.Benign:
+					res.Status = "false-alarm"
+				case killed:
 					res.Status = "killed"
-				} else {
+				default:
 					res.Status = "survived"
 				}
 			}
@@ -183,7 +189,7 @@ func runMutants(repo, verif, property string) int {
 	code := 0
 	for _, r := range results {
 		fmt.Printf("%-9s %-45s expect=%s\n", r.Status, r.Name, r.Expect)
-		if r.Status != "killed" {
+		if r.Status != "killed" && r.Status != "silent-ok" {
 			for _, rep := range r.Reports {
 				fmt.Printf("            reported: %s\n", rep)
 			}
@@ -191,7 +197,7 @@ func runMutants(repo, verif, property string) int {
 				fmt.Printf("            %s\n", r.Note)
 			}
 		}
-		if r.Status == "survived" || r.Status == "broken" {
+		if r.Status == "survived" || r.Status == "broken" || r.Status == "false-alarm" {
 			code = 3
 		}
 	}
